@@ -109,7 +109,7 @@ func vfC01Gen(rt *rapid.T) vfC01Case {
 	}
 	kind := rapid.SampledFrom(vfMetrics).Draw(rt, "metric")
 	c.Metric = string(kind)
-	g := vfNewVecGen(rt, c.Dim)
+	g := vfNewVecGenFor(rt, c.Dim, DistanceKind(c.Metric))
 	used := map[uint32]bool{}
 	var live, removed, all []uint32
 	vecs := map[uint32][]float32{}
